@@ -246,7 +246,15 @@ class World:
             m = self.M[mi]
             reused = k in self.used_md
             try:
-                if kind == "save":
+                if kind == "save" and fi == 1:
+                    # file 1 is addressed by its bare name, relative to the current directory
+                    cwd_ = os.getcwd()
+                    os.chdir(self.dir)
+                    try:
+                        call(m.save, os.path.basename(self.F[fi]), self.mds[k])
+                    finally:
+                        os.chdir(cwd_)
+                elif kind == "save":
                     call(m.save, self.F[fi], self.mds[k])
                 elif kind == "savef":
                     with open(self.F[fi], "wb") as fh:
@@ -269,8 +277,18 @@ class World:
             try:
                 if kind == "load":
                     call(self.M[mi].load, self.F[fi])
-                else:
+                elif fi == 0:
                     with open(self.F[fi], "rb") as fh:
+                        call(self.M[mi].load, fh)
+                else:
+                    # the saved state sits in a stream behind a header the caller has already consumed: loading starts
+                    # at the position the caller left the stream at
+                    box_ = os.path.join(self.dir, "container.bin")
+                    with open(self.F[fi], "rb") as fh, open(box_, "wb") as gh:
+                        gh.write(b"# qucumber checkpoint follows\n")
+                        gh.write(fh.read())
+                    with open(box_, "rb") as fh:
+                        fh.readline()
                         call(self.M[mi].load, fh)
             except LibRaised as e:
                 out.append((f"roundtrip:load-raised:{e.kind}", dict(error=str(e))))
